@@ -762,6 +762,11 @@ Lemma snap_error_handler phi psi (hd : M unit) :
 Proof. intros Hh. unfold with_error_handler. repeat first [exact Hh | snap_step]. Qed.
 End ST.
 
+Lemma bind_ok {A B} (m : M A) (f : A -> M B) h a h1 : m h = (Ok a, h1) -> bind m f h = f a h1.
+Proof. intros Eq. unfold bind. rewrite Eq. reflexivity. Qed.
+Lemma try_congr {A B} (m m' : M A) (K : res A -> M B) h h1 : m h = m' h1 -> try m K h = try m' K h1.
+Proof. intros Eq. unfold try. rewrite Eq. reflexivity. Qed.
+
 (* everything behind expire and remember *)
 Definition stack_core (E' : env) (full tf : bool) (fr : failresp) (lockmw confirmmw : bool) : M unit :=
   ok <- auth_middleware E' false full tf fr ;;
@@ -771,8 +776,12 @@ Definition stack_core (E' : env) (full tf : bool) (fr : failresp) (lockmw confir
   ok <- (if confirmmw then confirm_mw E' else ret true) ;;
   if negb ok then ret tt else
   app_handler E'.
+(* the remember stage: the middleware, then the view it hands on (overlaid with the identity it
+   wrote when it logged the cookie's owner in, i.e. when it set the context pid) *)
+Definition remember_stage (E : env) (remembermw : bool) (s : amap) : M amap :=
+  if remembermw then remember_mw (with_sess E s) ;;; remembered_view s else ret s.
 Definition stack_tail (E : env) (full tf : bool) (fr : failresp) (lockmw confirmmw remembermw : bool) (s : amap) : M unit :=
-  (if remembermw then remember_mw (with_sess E s) else ret tt) ;;; stack_core (with_sess E s) full tf fr lockmw confirmmw.
+  s2 <- remember_stage E remembermw s ;; stack_core (with_sess E s2) full tf fr lockmw confirmmw.
 
 Lemma app_stack_cut E full tf fr l c r e :
   app_stack E full tf fr l c r e = bind (if e then expire_mw E else ret (e_sess E)) (stack_tail E full tf fr l c r).
@@ -805,6 +814,19 @@ Proof.
   unfold try, remember_authenticate. rewrite Hk. reflexivity.
 Qed.
 
+(* when the middleware did nothing and no pid is cached, the view handed on is the view it got *)
+Lemma remembered_view_nocache s h : h_cpid h = None -> remembered_view s h = (Ok s, h).
+Proof. intros Hp. unfold remembered_view, bind, get_h. rewrite Hp. reflexivity. Qed.
+
+Lemma remember_stage_idle E r s h :
+  h_cpid h = None -> (r = false \/ remember_mw (with_sess E s) h = (Ok tt, h)) ->
+  remember_stage E r s h = (Ok s, h).
+Proof.
+  intros Hp Hr. unfold remember_stage. destruct r; [|reflexivity].
+  destruct Hr as [Hr|Hr]; [discriminate Hr|].
+  unfold bind at 1. rewrite Hr. apply remembered_view_nocache. exact Hp.
+Qed.
+
 (* with no user id in the view and no way for the remember middleware to supply one, the rest
    of the stack is exactly the refusal: the application handler is not reached *)
 Lemma stack_tail_refuses E full tf fr l c r s h :
@@ -818,13 +840,13 @@ Lemma stack_tail_refuses E full tf fr l c r s h :
       exists n ek, fault_at n (o_faults (e_O E)) = Some ek)).
 Proof.
   intros Hc Hp Ho Hb Hr.
-  assert (Rm : (if r then remember_mw (with_sess E s) else ret tt) h = (Ok tt, h)).
-  { destruct Hr as [->|Hk]; [reflexivity|]. destruct r; [|reflexivity].
+  assert (Rm : remember_stage E r s h = (Ok s, h)).
+  { apply remember_stage_idle; [exact Hp|]. destruct Hr as [->|Hk]; [left; reflexivity|right].
     apply remember_mw_nocookie; assumption. }
   destruct (gate_refusal_noload_lemma (with_sess E s) false full tf fr h Hc Hp Ho (or_intror Hb))
     as (h' & A & B1 & B2 & B3 & B4 & B5).
   exists h'. split; [|auto].
-  unfold stack_tail. unfold bind at 1. rewrite Rm. unfold stack_core, bind. rewrite A. reflexivity.
+  unfold stack_tail. rewrite (bind_ok _ _ _ _ _ Rm). unfold stack_core, bind. rewrite A. reflexivity.
 Qed.
 
 (* ---- C09 on [step] --------------------------------------------------------------------------- *)
@@ -917,11 +939,6 @@ Proof. intros R. unfold serve, route_table. rewrite R. reflexivity. Qed.
 
 Lemma error_handler_ok E (hd : M unit) h h' : hd h = (Ok tt, h') -> with_error_handler E hd h = (Ok tt, h').
 Proof. intros Eq. unfold with_error_handler, try. rewrite Eq. reflexivity. Qed.
-
-Lemma bind_ok {A B} (m : M A) (f : A -> M B) h a h1 : m h = (Ok a, h1) -> bind m f h = f a h1.
-Proof. intros Eq. unfold bind. rewrite Eq. reflexivity. Qed.
-Lemma try_congr {A B} (m m' : M A) (K : res A -> M B) h h1 : m h = m' h1 -> try m K h = try m' K h1.
-Proof. intros Eq. unfold try. rewrite Eq. reflexivity. Qed.
 
 Section XS.
 Variable C : crypto.
@@ -1058,8 +1075,8 @@ Proof.
     split; [apply snap_error_handler, snap_stack_core|].
     rewrite <- Es. unfold with_error_handler. apply try_congr. symmetry. rewrite app_stack_cut.
     rewrite (bind_ok _ _ _ _ _ (expire_mw_alive_eq E h0 Hu Hx)). fold h1. unfold stack_tail.
-    assert (Rm : (if r then remember_mw (with_sess E j) else ret tt) h1 = (Ok tt, h1)).
-    { destruct r; [|reflexivity]. apply remember_mw_hasid; [reflexivity|exact Hb]. }
+    assert (Rm : remember_stage E r j h1 = (Ok j, h1)).
+    { apply remember_stage_idle; [reflexivity|]. right. apply remember_mw_hasid; [reflexivity|exact Hb]. }
     rewrite (bind_ok _ _ _ _ _ Rm). reflexivity. }
   destruct Tl as (m & Sm & Em).
   destruct (snap_from _ _ m h1 x h' Sm eq_refl Em wr Ho) as (ls & lc & S1 & C1 & F & G).
@@ -1236,7 +1253,7 @@ Qed.
 Definition wit_crypto : crypto := mkCrypto (fun x => x) (fun x => x) (fun _ _ => true).
 Definition wit_cfg : config :=
   mkConfig [MLogout] false false false false false false 3 300 300 3600 3600 [] true false false DELETE GET false
-           [] RespNotFound [] [] false.
+           [] RespNotFound [] [] false false.
 Definition wit_world : world := mkWorld (mkStorage [] []) [(bs "b", [(k_uid, bs "a")])] [(bs "b", [(k_rm, bs "t")])].
 Definition wit_req : request := mkRequest (bs "b") DELETE RLogout (bs "/logout") [] [] [] false.
 Definition wit_oracle : oracle := mkOracle 0 [] [] [(0%nat, EGeneric); (1%nat, EGeneric)] (mkPA false false [] [] [] [] 0).
